@@ -11,15 +11,34 @@ import PpciVerif.Gen.ElfHeaders
             { T <index> <firstNonLocal> <n> { Y <namehex> <value> <size> <bind> <type> <other> <shndx> } }
             { A <index> <target> <symtab> <n> { E <offset> <sym> <type> <addend> } }
        | err <reason of Spec.Elf.Err>
-  write <quirks:2 bits> <arch> <rel|exec> <entry id|-> <item>*
+  write <quirks:2 bits> <arch> <rel|exec> <entry id|~> <item>*
       items  S <namehex> <addr> <align> <datahex>
              Y <id> <namehex> <g|l> <value|~> <sectionhex|~> <f|o|n> <size>
-             R <rtype|~> <symid> <sectionhex> <offset> <addend>
+             R <rtype|~|!> <symid> <sectionhex> <offset> <addend>
              I <namehex> <addr> <k> <sectionhex>*k      (sections must have been given before)
       -> ok <filehex> | err <PythonExceptionName>
       (the header layouts are the ones dumped from the live ppci classes: Gen.ElfHeaders)
 -/
 open Proto Spec.Elf Model.ElfW
+
+/-! `Proto.fromHex` costs ~50 µs per byte in the interpreter; files here are 10-20 kB, so the driver scans the
+    UTF-8 bytes of the hex text directly (same language: lower/upper-case hex pairs, `-` = empty). -/
+def hv (c : UInt8) : Nat :=
+  if 48 ≤ c && c ≤ 57 then (c - 48).toNat else if 97 ≤ c && c ≤ 102 then (c - 87).toNat
+  else if 65 ≤ c && c ≤ 70 then (c - 55).toNat else 255
+
+def fastHexLoop (b : ByteArray) : Nat → List Nat → Option (List Nat)
+  | 0, acc => some acc
+  | 1, _ => none
+  | n + 2, acc =>
+    let x := hv (b.get! n)
+    let y := hv (b.get! (n + 1))
+    if x = 255 ∨ y = 255 then none else fastHexLoop b n ((x * 16 + y) :: acc)
+
+def fastHex (s : String) : Option (List Nat) :=
+  if s == "-" then some [] else
+  let b := s.toUTF8
+  fastHexLoop b b.size []
 
 def clsStr : Cls → String | .c32 => "32" | .c64 => "64"
 def enStr : End → String | .le => "le" | .be => "be"
@@ -65,12 +84,12 @@ def optNat? (s : String) : Option (Option Nat) :=
   if s == "~" then some none else (nat? s).map some
 
 def optName? (s : String) : Option (Option (List Nat)) :=
-  if s == "~" then some none else (fromHex s).map some
+  if s == "~" then some none else (fastHex s).map some
 
 def takeNames : Nat → List String → Option (List (List Nat) × List String)
   | 0, ws => some ([], ws)
   | n + 1, w :: ws => do
-      let nm ← fromHex w
+      let nm ← fastHex w
       let (r, rest) ← takeNames n ws
       pure (nm :: r, rest)
   | _ + 1, [] => none
@@ -80,30 +99,31 @@ def parseItems : Nat → List String → Obj → Option Obj
   | _, [], o => some o
   | 0, _ :: _, _ => none
   | fuel + 1, "S" :: nm :: addr :: al :: dat :: rest, o => do
-      let nm ← fromHex nm
+      let nm ← fastHex nm
       let addr ← nat? addr
       let al ← nat? al
-      let dat ← fromHex dat
+      let dat ← fastHex dat
       parseItems fuel rest { o with sections := o.sections ++ [{ name := nm, address := addr, data := dat, alignment := al }] }
   | fuel + 1, "Y" :: id :: nm :: b :: v :: sec :: ty :: sz :: rest, o => do
       let id ← nat? id
-      let nm ← fromHex nm
+      let nm ← fastHex nm
       let g ← (if b == "g" then some true else if b == "l" then some false else none)
       let v ← optNat? v
       let sec ← optName? sec
       let ty ← (if ty == "f" then some SymTyp.func else if ty == "o" then some SymTyp.object
                 else if ty == "n" then some SymTyp.other else none)
       let sz ← nat? sz
-      parseItems fuel rest { o with symbols := o.symbols ++ [{ id := id, name := nm, isGlobal := g, value := v, section := sec, typ := ty, size := sz }] }
+      parseItems fuel rest { o with symbols := o.symbols ++ [{ id := id, name := nm, isGlobal := g, value := v, sect := sec, typ := ty, size := sz }] }
   | fuel + 1, "R" :: rt :: sid :: sec :: off :: add :: rest, o => do
-      let rt ← optNat? rt
+      let rt ← (if rt == "~" then some RType.notImplemented else if rt == "!" then some RType.keyError
+                else (nat? rt).map RType.ok)
       let sid ← nat? sid
-      let sec ← fromHex sec
+      let sec ← fastHex sec
       let off ← nat? off
       let add ← int? add
-      parseItems fuel rest { o with relocs := o.relocs ++ [{ rtype := rt, symbolId := sid, section := sec, offset := off, addend := add }] }
+      parseItems fuel rest { o with relocs := o.relocs ++ [{ rtype := rt, symbolId := sid, sect := sec, offset := off, addend := add }] }
   | fuel + 1, "I" :: nm :: addr :: k :: rest, o => do
-      let nm ← fromHex nm
+      let nm ← fastHex nm
       let addr ← nat? addr
       let k ← nat? k
       let (names, rest) ← takeNames k rest
@@ -121,7 +141,7 @@ def quirks? : String → Option Quirks
 def step (line : String) : String :=
   match words line with
   | ["read", h] =>
-    match fromHex h with
+    match fastHex h with
     | none => "bad-op"
     | some bs =>
       match Spec.Elf.read bs with
